@@ -81,6 +81,14 @@ def run(tier):
             # the same through the pinned open path (type and the file's own stored checksum pinned)
             scripts.append((name, "scan", a, min(hl, a + step), "case %s-pscan-%d 600\nhdrscan file:%s %d %d pin %d %d %d\nend\n" %
                             (name, a, path, a, min(hl, a + step), h.hash_type, h.digest_loc, ref.DIGEST_SIZE[h.hash_type])))
+        # the same where the context has already read the lead of the UNMODIFIED bytes (as a downloader that looks at the lead,
+        # fetches the rest and reads the lead again does): what counts is the bytes now there.  Quick: the lead of every
+        # file and the whole header of every third one
+        fi = [n_ for n_, _ in files].index(name)
+        rl_to = hl if (tier == "thorough" or fi % 3 == 0) else h.lead_size
+        rstep = (rl_to + nparts - 1) // nparts
+        for a in range(0, rl_to, rstep):
+            scripts.append((name, "scan", a, min(rl_to, a + rstep), "case %s-rscan-%d 600\nhdrscan file:%s %d %d relead\nend\n" % (name, a, path, a, min(rl_to, a + rstep))))
         # 2. insertions / deletions with the header length field adjusted (not re-sealed)
         pos = list(range(h.lead_size, hl)) if tier == "thorough" else sorted(rnd.sample(range(h.lead_size, hl), min(40, hl - h.lead_size)))
         for p in pos:
@@ -139,9 +147,10 @@ def run(tier):
                     if hh.sealed and hh.ok:
                         sealed_vals.append(v)
                 pinargs = script.split("\n")[1].split(" pin ")[1] if " pin " in script else None
-                trace.append({"op": "hdrmut", "file": name, "pos": p, "pinned": pinargs is not None, "accepted": acc.get(p, []), "sealedVals": sealed_vals})
-                owner.append("case x 600\nhdrscan file:%s %d %d%s\nend\n" % (os.path.join(common.REPLAY, "C06-%s.zck" % name), p, p + 1, (" pin " + pinargs) if pinargs else ""))
-                ck.case((name, p, pinargs is not None))
+                relead = script.split("\n")[1].endswith(" relead")
+                trace.append({"op": "hdrmut", "file": name, "pos": p, "pinned": pinargs is not None, "relead": relead, "accepted": acc.get(p, []), "sealedVals": sealed_vals})
+                owner.append("case x 600\nhdrscan file:%s %d %d%s\nend\n" % (os.path.join(common.REPLAY, "C06-%s.zck" % name), p, p + 1, (" pin " + pinargs) if pinargs else (" relead" if relead else "")))
+                ck.case((name, p, pinargs is not None, relead))
                 ck.evaluations += 254
         else:
             ev = [e for e in ce if e["op"] == "init_read"]
